@@ -1,8 +1,8 @@
 // Runtime contract check of the lexer contracts (attached to harper-core/src/lexing/mod.rs): for every
-// text of length 0..=4 over a 14-symbol alphabet chosen to trigger every sub-lexer, each sub-lexer
+// text of length 0..=4 over a 16-symbol alphabet chosen to trigger every sub-lexer, each sub-lexer
 // satisfies found_ok (a hit consumes 1..=len chars), lex_token never returns None on non-empty
 // input, and PlainEnglish::parse tiles the text.
-const RAC_ALPHA: [char; 14] = ['a', 's', '1', '0', 'x', ' ', '\t', '\n', '.', '[', ']', '-', '\'', '\u{1F600}'];
+const RAC_ALPHA: [char; 16] = ['a', 's', '1', '0', 'x', ' ', '\t', '\n', '.', '[', ']', '-', '\'', '\u{1F600}', '@', '"'];
 
 fn rac_texts(max: usize) -> Vec<Vec<char>> {
     let mut all = vec![vec![]];
@@ -60,7 +60,7 @@ fn rac_lexers() {
             }
         }
     }
-    println!("RAC-OK lexers cases={} nontrivial={} bound=len<=4,alphabet=14", cases, nontrivial);
+    println!("RAC-OK lexers cases={} nontrivial={} bound=len<=4,alphabet=16", cases, nontrivial);
 }
 
 #[test]
@@ -86,7 +86,7 @@ fn rac_plain_english_tiles() {
             panic!("tiling violated");
         }
     }
-    println!("RAC-OK plain_english_tiles cases={} nontrivial={} bound=len<=4,alphabet=14", cases, nontrivial);
+    println!("RAC-OK plain_english_tiles cases={} nontrivial={} bound=len<=4,alphabet=16", cases, nontrivial);
 }
 
 // URL scanner: fragments that exercise scheme / login / host / port / path / escapes. Runs on a
